@@ -240,6 +240,14 @@ def std_facts(tree):
     walk(strip_doc(fn.body), {})
     if {id(n) for n in tt_call(fn)} != seen:
         raise Refuse('a tidytcells standardiser call sits outside the recognised structure')
+    # every MENTION of a tidytcells standardiser must be one of the recognised call sites: a standardiser bound with functools.partial,
+    # stored in a table or handed to a helper is outside the subset (harmless rewrite C18-g1 produced an empty column list here)
+    mentions = [n for n in ast.walk(fn) if isinstance(n, ast.Attribute) and n.attr in ('standardize', 'standardise')
+                and isinstance(n.value, ast.Attribute) and isinstance(n.value.value, ast.Name) and n.value.value.id in ('tt', 'tidytcells')]
+    if len(mentions) != len(seen):
+        raise Refuse('a tidytcells standardiser is mentioned outside a recognised call site')
+    if not cols:
+        raise Refuse('no standardised column recognised')
     if len({c for c, _ in cols}) != len(cols):
         raise Refuse('a column is standardised twice')
     return cols
